@@ -22,6 +22,7 @@ type printCase struct {
 	Lines []absLine  `json:"lines"`
 	Calls []specCall `json:"calls"`
 	NDump int        `json:"ndump"`
+	Pre   int        `json:"pre"` // lines in front of the printed report (a stray separator)
 	PP    ppSpec     `json:"pp"`
 }
 
